@@ -216,6 +216,12 @@ type plainReader struct{ r io.Reader }
 
 func (p plainReader) Read(b []byte) (int, error) { return p.r.Read(b) }
 
+// seekReader is a custom io.ReadSeeker (no Close, no Len, none of the types net/http knows).
+type seekReader struct{ r *bytes.Reader }
+
+func (s *seekReader) Read(b []byte) (int, error)                { return s.r.Read(b) }
+func (s *seekReader) Seek(off int64, whence int) (int64, error) { return s.r.Seek(off, whence) }
+
 type scenario struct {
 	script []int
 	budget int // -1: no SendRetry option; -2: default SendRetry() (2 retries, 250ms)
@@ -225,7 +231,8 @@ type scenario struct {
 	url    string
 	hdr    string
 	kind   string
-	size   int
+	size   int // length of the underlying stream
+	off    int // position of a seekable body (file, seeker) when it is handed to Send; the body is stream[off:]
 	rbody  bool
 	flag   string
 }
@@ -258,14 +265,15 @@ func (s *scenario) effBudget() int {
 	return s.budget
 }
 
-// class is a GENERATOR precondition only (like "Add only torrents not queued" in c20): which input class the
-// scenario belongs to, so that the bulk of the traces stays outside the classes of the known finding F34 and a
-// few dedicated traces (flag in the reset cfg) sit inside them. It is not an oracle: every trace is judged by TLC.
+// class labels the input class of a scenario with respect to finding F34 (re-Do of a consumed request body); it
+// goes into the reset cfg (f34) so that a finding signature can match on it. It is not an oracle: every trace is
+// judged by TLC. Since F34 was repaired the bulk no longer stays outside these classes -- retries with every body
+// kind, including seekable bodies handed over at a non-zero offset, are part of the bulk in both tiers.
 func (s *scenario) class() string {
-	if s.kind == "nil" || (s.size == 0 && s.kind != "file") {
+	if s.kind == "nil" || (s.size-s.off == 0 && s.kind != "file") {
 		return "none" // (an *os.File body is closed by the transport after the first attempt, whatever its size)
 	}
-	unsized := s.kind == "file" || s.kind == "plain"
+	unsized := s.kind == "file" || s.kind == "plain" || s.kind == "seeker"
 	consumed, reusable := false, false
 	for i := 0; i <= s.effBudget(); i++ {
 		r := 200
@@ -327,6 +335,11 @@ func run(c *eng.Ctx) error {
 		{script: []int{respNet, 503, 200}, budget: 3, kind: "file", size: 1, flag: "unsized"},
 		{script: []int{respNet, 200}, budget: 2, kind: "breader", size: 65536, flag: "sized_newconn"},
 		{script: []int{503, 200}, budget: 2, kind: "sreader", size: 1, rbody: true, flag: "sized_newconn"},
+		// seekable bodies positioned at a non-zero offset: the original body is stream[off:]
+		{script: []int{503, 200}, budget: 2, kind: "file", size: 65536, off: 4096},
+		{script: []int{respNet, 200}, budget: 2, kind: "seeker", size: 65536, off: 1},
+		{script: []int{respNet, 503, 200}, budget: 3, kind: "seeker", size: 1, off: 1},
+		{script: []int{respRefuse, 503, respNet, 200}, budget: 3, kind: "file", size: 65536, off: 40000},
 		{script: []int{503, 503, 200}, budget: -2, kind: "breader", size: 1},
 		{script: []int{respNet, 503, 503, 200}, budget: -2, kind: "nil"},
 		{script: []int{503, 200}, budget: -1, kind: "sreader", size: 65536},
@@ -377,7 +390,7 @@ func draw(script []int, variant int, rng *rand.Rand) scenario {
 	s.method = []string{"POST", "PUT", "GET"}[rng.Intn(3)]
 	s.url = []string{"u1", "u2"}[rng.Intn(2)]
 	s.hdr = []string{"h0", "h1", "h2"}[rng.Intn(3)]
-	s.kind = []string{"nil", "breader", "bbuffer", "sreader", "file", "plain"}[rng.Intn(6)]
+	s.kind = []string{"nil", "breader", "bbuffer", "sreader", "file", "plain", "seeker", "file"}[rng.Intn(8)]
 	s.size = []int{0, 1, 65536}[rng.Intn(3)]
 	s.rbody = rng.Intn(3) == 0
 	if s.method == "GET" {
@@ -386,19 +399,10 @@ func draw(script []int, variant int, rng *rand.Rand) scenario {
 	if s.kind == "nil" {
 		s.size = 0
 	}
-	if s.class() != "none" { // keep the bulk outside the known-failing input classes
-		if s.rbody && rng.Intn(2) == 0 {
-			s.rbody = false
-		}
-		if s.class() != "none" {
-			if rng.Intn(2) == 0 && s.kind != "file" {
-				s.size = 0
-			} else {
-				s.kind, s.size = "nil", 0
-			}
-		}
+	if (s.kind == "file" || s.kind == "seeker") && s.size > 0 && rng.Intn(3) > 0 {
+		s.off = []int{1, s.size / 2, s.size - 1, s.size}[rng.Intn(4)] // the caller already consumed a local header
 	}
-	s.flag = "none"
+	s.flag = s.class()
 	return s
 }
 
@@ -418,16 +422,17 @@ func classify(resp *http.Response, err error) (string, int) {
 
 func exec(c *eng.Ctx, e *env, t int, s *scenario, rng *rand.Rand) {
 	if s.flag == "" {
-		s.flag = "none"
+		s.flag = s.class()
 	}
-	payload := make([]byte, s.size)
-	rng.Read(payload)
+	stream := make([]byte, s.size)
+	rng.Read(stream)
+	payload := stream[s.off:] // the original body: what the caller asked to be sent
 	e.mu.Lock()
 	e.payload, e.rbody, e.recs = payload, s.rbody, nil
 	e.mu.Unlock()
 
-	c.W.Reset(t, map[string]any{"f34": s.flag, "kind": s.kind, "size": s.size, "script": s.script, "rbody": s.rbody,
-		"retryopt": s.budget})
+	c.W.Reset(t, map[string]any{"f34": s.flag, "kind": s.kind, "size": s.size, "off": s.off, "script": s.script,
+		"rbody": s.rbody, "retryopt": s.budget})
 
 	var body io.Reader
 	var file *os.File
@@ -440,13 +445,22 @@ func exec(c *eng.Ctx, e *env, t int, s *scenario, rng *rand.Rand) {
 		body = strings.NewReader(string(payload))
 	case "plain":
 		body = plainReader{bytes.NewReader(payload)}
+	case "seeker":
+		sr := &seekReader{bytes.NewReader(stream)}
+		if _, err := sr.Seek(int64(s.off), io.SeekStart); err != nil {
+			panic(err)
+		}
+		body = sr
 	case "file":
 		p := filepath.Join(c.Out, "body.bin")
-		if err := os.WriteFile(p, payload, 0o644); err != nil {
+		if err := os.WriteFile(p, stream, 0o644); err != nil {
 			panic(err)
 		}
 		f, err := os.Open(p)
 		if err != nil {
+			panic(err)
+		}
+		if _, err := f.Seek(int64(s.off), io.SeekStart); err != nil {
 			panic(err)
 		}
 		file, body = f, f
@@ -483,7 +497,7 @@ func exec(c *eng.Ctx, e *env, t int, s *scenario, rng *rand.Rand) {
 	if s.budget == -1 {
 		extra = []int{} // RetryCodes can only be given through SendRetry
 	}
-	c.W.Ev("Send", "m", s.method, "u", s.url, "h", s.hdr, "len", s.size, "replay", s.kind != "plain",
+	c.W.Ev("Send", "m", s.method, "u", s.url, "h", s.hdr, "len", len(payload), "replay", s.kind != "plain",
 		"acc", s.acc, "extra", extra, "budget", s.effBudget())
 	resp, err := httputil.Send(s.method, e.srv.URL+urls[s.url], opts...)
 	res, code := classify(resp, err)
